@@ -117,12 +117,22 @@ def check_case(ctx, case):
     ops.append({'op': 'merge_doc', 'id': 'other', 'data': {'other': [1, 'two', {'three': 3.5}], 'pad': 'x' * 40}, 'parser': 1})
     for f in ('json', 'yaml', 'toml', 'jsonl'):
         ops.append({'op': 'output', 'format': f, 'parser': 1})
+    # the writer route (stdout of the CLI, OutputToFile) must deliver exactly the bytes Output returns
+    wsel = fmts[case.get('i', 0) % len(fmts)]
+    ops.append({'op': 'to_writer', 'format': wsel})
     resp = ctx.call(ops, res)
     if res.verdict == 'violated':
         return res
     if resp is None:
         return res.violate('crash', 'worker died', docs=docs)
     rs = resp['results']
+    wres = rs[-1]
+    ref = rs[len(docs) + 1 + fmts.index(wsel)]
+    if not wres.get('panic') and ref['err'] is None:
+        if wres['err'] is not None or out_bytes(wres) != out_bytes(ref):
+            return res.violate('roundtrip', 'OutputToWriter(%s) does not deliver the bytes Output(%s) returns' % (wsel, wsel), docs=docs, err=wres['err'],
+                               writer=out_bytes(wres).decode('utf-8', 'replace') if wres['err'] is None else None, output=out_bytes(ref).decode('utf-8', 'replace'))
+        res.ev('writer_route_agreed')
     for r in rs:
         if r.get('panic'):
             return res.violate('crash', 'panic: ' + r['panic'][:300], docs=docs)
